@@ -421,7 +421,7 @@ def decide(pid, tier, seed):
         "trusted_base": spec.get("trusted_base", []) + [
             "Lean 4.33 kernel; axioms allowed: propext, Classical.choice, Quot.sound",
             "tools/gen_constants.py + gen_zobrist.py (constants regenerated from /repo on this run)"
-            + ("; tools/gen_translate.py (leaper tables, rays, shifts, slider masks translated from the Rust expressions on this run; operator meanings read from bitboard.rs)" if pid == "C06" else ""),
+            + ("; tools/gen_translate.py (leaper tables, rays, shifts, slider masks translated from the Rust expressions on this run; operator meanings read from bitboard.rs)" if pid in ("C06", "C17") else ""),
             "correspondence harness (harness/src/hx, compiled against /repo/src in-process, cfg rce_verif) and Lean driver",
             "statements in lean/" + spec["module"].replace(".", "/") + ".lean and specs in lean/RCE/Spec",
         ],
@@ -436,7 +436,7 @@ def decide(pid, tier, seed):
         "streams": [{"name": s["name"], "summary": {k: v for k, v in (s["summary"] or {}).items() if k != "samples"}} for s in streams][:40],
         "model_drift": [m["raw"][:600] for m in drift_mm[:3]],
         "model_scope": {"baseline": "tools/model_scope.json", "state_outside_the_model": scope_drift},
-        "source_translation": (json.load(open(os.path.join(WORK, "translate_status.json"))) if pid == "C06" and os.path.exists(os.path.join(WORK, "translate_status.json")) else None),
+        "source_translation": (json.load(open(os.path.join(WORK, "translate_status.json"))) if pid in ("C06", "C17") and os.path.exists(os.path.join(WORK, "translate_status.json")) else None),
         "extra": {k: v for k, v in extra.items() if k not in ("violations", "model_mismatches", "samples")},
         "impl_vs_spec_failures": len(spec_mm),
         "impl_vs_model_disagreements": len(model_mm),
